@@ -8,4 +8,5 @@ PYTHONPATH=$wt /venv/bin/python -m pytest -q -p no:cacheprovider 2>&1 | tail -1
 cd /verif && git -C /repo apply /tmp/seed.diff || exit 1
 for id in "$@"; do ./check $id | cut -c1-250 | grep -E "VIOLATION|^OK|^FAIL|broken"; done
 git -C /repo checkout -- .
+git -C /verif checkout -- evidence 2>/dev/null
 git -C /repo status --short | grep -v egg-info; true
